@@ -8,23 +8,34 @@ pub const MAP_CAP: usize = 4;
 #[macro_use] #[path = "../../prelude/macros.rs"] mod pmacros;
 include!("../../prelude/vec.rs");
 include!("../../prelude/hashmap.rs");
-include!("../../prelude/u256.rs");
 pub type BlockNumber = u64;
-#[derive(Clone, Copy, PartialEq, Eq, PartialOrd, Ord, Debug, Default)] pub struct U512(pub u128);
-impl From<u32> for U512 { fn from(x: u32) -> Self { U512(x as u128) } }
+// this unit narrows further than the shared prelude: U256 -> 32 bits, U512 -> 64 bits (the 10^9 scale factor needs 30 bits, so the
+// product of a 32-bit value with the numerator fits 64 bits, exactly as the 256-bit value times the numerator fits 512 bits)
+#[derive(Clone, Copy, PartialEq, Eq, PartialOrd, Ord, Debug, Default, Hash)] pub struct U256(pub u32);
+impl U256 { pub fn zero() -> Self { U256(0) } pub fn one() -> Self { U256(1) } pub fn is_zero(&self) -> bool { self.0 == 0 } }
+fn u256_add(a: u32, b: u32) -> U256 { match a.checked_add(b) { Some(x) => U256(x), None => panic!("U256: attempt to add with overflow") } }
+fn u256_sub(a: u32, b: u32) -> U256 { match a.checked_sub(b) { Some(x) => U256(x), None => panic!("U256: attempt to subtract with overflow") } }
+impl std::ops::Add for U256 { type Output = U256; fn add(self, o: U256) -> U256 { u256_add(self.0, o.0) } }
+impl<'a> std::ops::Add<U256> for &'a U256 { type Output = U256; fn add(self, o: U256) -> U256 { u256_add(self.0, o.0) } }
+impl<'a, 'b> std::ops::Add<&'b U256> for &'a U256 { type Output = U256; fn add(self, o: &U256) -> U256 { u256_add(self.0, o.0) } }
+impl<'a, 'b> std::ops::Sub<&'b U256> for &'a U256 { type Output = U256; fn sub(self, o: &U256) -> U256 { u256_sub(self.0, o.0) } }
+impl<'a> std::ops::Sub<u32> for &'a U256 { type Output = U256; fn sub(self, o: u32) -> U256 { u256_sub(self.0, o) } }
+impl std::fmt::Display for U256 { fn fmt(&self, _f: &mut std::fmt::Formatter) -> std::fmt::Result { Ok(()) } }
+#[derive(Clone, Copy, PartialEq, Eq, PartialOrd, Ord, Debug, Default)] pub struct U512(pub u64);
+impl From<u32> for U512 { fn from(x: u32) -> Self { U512(x as u64) } }
 impl std::ops::Mul for U512 { type Output = U512; fn mul(self, o: U512) -> U512 { match self.0.checked_mul(o.0) { Some(x) => U512(x), None => panic!("U512: attempt to multiply with overflow") } } }
 impl std::ops::Div for U512 {
     type Output = U512;
     /// division as a CONTRACT (fresh q, r with r < d and q*d + r = x): bit-blasting a 128-bit divider does not finish
     fn div(self, o: U512) -> U512 {
         if o.0 == 0 { panic!("U512: attempt to divide by zero") }
-        #[cfg(kani)] { let q: u128 = kani::any(); let r: u128 = kani::any(); kani::assume(r < o.0); let p = q.checked_mul(o.0); kani::assume(p.is_some()); let sm = p.unwrap().checked_add(r); kani::assume(sm == Some(self.0)); return U512(q); }
+        #[cfg(kani)] { let q: u64 = kani::any(); let r: u64 = kani::any(); kani::assume(r < o.0); let p = q.checked_mul(o.0); kani::assume(p.is_some()); let sm = p.unwrap().checked_add(r); kani::assume(sm == Some(self.0)); return U512(q); }
         #[cfg(not(kani))] { U512(self.0 / o.0) }
     }
 }
 pub trait UintConvert<T> { fn convert_into(&self) -> (T, bool); }
-impl UintConvert<U512> for U256 { fn convert_into(&self) -> (U512, bool) { (U512(self.0 as u128), false) } }
-impl UintConvert<U256> for U512 { fn convert_into(&self) -> (U256, bool) { (U256(self.0 as u64), self.0 > u64::MAX as u128) } }
+impl UintConvert<U512> for U256 { fn convert_into(&self) -> (U512, bool) { (U512(self.0 as u64), false) } }
+impl UintConvert<U256> for U512 { fn convert_into(&self) -> (U256, bool) { (U256(self.0 as u32), self.0 > u32::MAX as u64) } }
 #[cfg(kani)] fn any_f64() -> f64 { kani::any() }
 #[cfg(not(kani))] fn any_f64() -> f64 { 0.5 }
 pub trait MFloat { fn mpowf(self, e: f64) -> f64; fn mlog(self, base: f64) -> f64; }
@@ -57,7 +68,7 @@ mod harness {
         let r: f64 = kani::any(); kani::assume(r >= 0.0 && r < 1.0);
         let m = multiply(&u, r);
         assert!(m.0 >= 1 && (m.0 <= u.0 || (u.0 == 0 && m.0 == 1)), "SPEC sampling: multiply(u, ratio<1) must lie in [1, max(u,1)]");
-        kani::cover!(m.0 > 1u64 << 40, "a large product");
+        kani::cover!(m.0 > 1u32 << 20, "a large product");
     }
     #[kani::proof]
     fn samples_count() {
@@ -75,7 +86,7 @@ mod harness {
         kani::assume(last_number > start_number && last_number - start_number > last_n && last_number - start_number <= last_n + 3);
         let start_td = U256(kani::any()); let last_td = U256(kani::any());
         // total difficulty grows by at least 1 per block
-        kani::assume(last_td.0 > start_td.0 && last_td.0 - start_td.0 >= last_number - start_number);
+        kani::assume(last_td.0 > start_td.0 && (last_td.0 - start_td.0) as u64 >= last_number - start_number);
         let (boundary, ds) = sample_blocks(start_number, &start_td, last_number, &last_td, last_n);
         assert!(boundary.0 > start_td.0 && boundary.0 <= last_td.0, "SPEC sampling: difficulty boundary outside (start total difficulty, last total difficulty]");
         assert!(ds.len >= 1 && ds.len as u64 <= last_number - start_number - last_n, "SPEC sampling: number of distinct samples outside [1, blocks - last_n]");
